@@ -24,6 +24,81 @@ CHECKS = {
              "safetensors writer, shard file naming (checked by the oracle only).",
         technique="Coq proof over translated+hand model; vm_compute correspondence with real save/load",
         design_ref="§6 C07"),
+    "C01": dict(
+        level="proof",
+        text="A heap model of Value/Node/Graph with 30 public mutators returning the partially mutated state on Raise. Proved "
+             "for every history, rejected calls included: I1 (uses <-> node inputs) for every configuration of the model; I2 "
+             "(outputs <-> producer/index) for the repaired model and for current-model histories avoiding the open defect "
+             "sites; I3-I7 (node.graph <-> node sequence, ownership flags/ref counters <-> collections, initializers keyed by "
+             "name, inputs/initializers without producer) per op and for histories (C01_inv_reachable_partial: Graph(...) "
+             "called with arguments is outside these clauses). Open sites are refuted with vm_compute witnesses replayed on "
+             "the implementation (known findings); sites repaired by fix commits are switched in current_cfg. Tie: every op "
+             "of generated histories (incl. malformed calls at every argument position, exhaustive length<=2 container "
+             "histories) is executed on real objects and outcome + hash of the full public observation is compared inside "
+             "Coq after every op; the oracle recomputes I1-I7 through public accessors.",
+        note=TRUST + "Oracle-only (not in the Coq model): slices, Graph.sort, popitem/update/setdefault/|=, register_initializer, "
+             "the convenience functions. The executor rebinds onnx_ir._core.frozenset to an insertion-ordered set "
+             "(Graph.remove iterates a frozenset of nodes in address order). Node sequence is a plain list here (C11).",
+        technique="Coq invariant proof over heap model of the mutator alphabet; per-step vm_compute correspondence (hashed observations)",
+        design_ref="§6 C01, §10"),
+    "C04": dict(
+        level="proof",
+        text="Ten theorems over dtype tables and dispatch sets re-extracted from _enums.py/_core.py/serde.py on every run: "
+             "table consistency (vm_compute over the generated finite tables), every representation reports dtype/shape, "
+             "len(tobytes) = nbytes = ceil(size*bw/8), pack/unpack laws for 2- and 4-bit data (any length incl. odd, "
+             "non-multiple of 4, zero), numpy() of every representation holds the logical elements, tobytes() = little-endian "
+             "packing for every representation, tofile() writes exactly those bytes at the current position for every "
+             "copy_file_range partial-copy schedule and chunk size leaving the rest unchanged, external tensors at any "
+             "offset, serialization represents the same data; strings partial (trailing-NUL refutation is a known finding). "
+             "Tie: 25 dtypes x sizes 0..9 x 28 representation/storage variants + random, compared inside Coq, with "
+             "onnx.numpy_helper as third voice and the torch adapter where torch has the dtype.",
+        note=TRUST + "Modelled, not verified: numpy view/astype/resize/frombuffer, ml_dtypes low-bit contract (checked on all 256 "
+             "bytes each run), mmap, copy_file_range, torch; nbytes float arithmetic exact below 2^50 elements.",
+        technique="Coq proof over regenerated dtype tables + hand model of packing/representations; vm_compute correspondence",
+        design_ref="§6 C04, §10"),
+    "C06": dict(
+        level="proof",
+        text="Over the C01 heap model: a raising op returns the input heap itself, hence every observation is unchanged "
+             "(C06_raise_frame_partial for current-model histories avoiding the open sites, C06_raise_frame_fixed_partial "
+             "for the repaired model; multi-element ops validate the whole argument first so a failure at any position k is "
+             "covered; 'partial': Graph(...) with arguments is out of scope). Open sites refuted with witnesses replayed on "
+             "the implementation (known findings: Graph(...) rejected midway, the two non-transactional convenience "
+             "functions). Tie: as C01, with a malformed stream placing the offending element at every position; the oracle "
+             "deep-snapshots all reachable objects before each op and compares after a raising op.",
+        note=TRUST + "Same trusted base as C01.",
+        technique="Coq frame theorem over the C01 heap model; per-step vm_compute correspondence; snapshot oracle",
+        design_ref="§6 C06, §10"),
+    "C09": dict(
+        level="proof",
+        text="Nine theorems, none partial, for every configuration and every schedule of an executable labelled transition "
+             "system of the parallel writer (single-file, serial inner writers, sharded two-level driver sharing one budget, "
+             "lock table and outer callback lock; explicit condition-variable wait set): budget invariant and memory bound, "
+             "callback mutual exclusion and exactly-once, per-tensor-object mutual exclusion, no lost wake-up, error path "
+             "(exception delivered only after all workers stopped with the budget released), termination with an explicit "
+             "bound, deadlock freedom, files equal to the serial writer's. The guard/update expressions of _ByteBudget and "
+             "_reservation_bytes are re-extracted from the source on every run. Tie: threading/concurrent.futures/_ByteBudget "
+             "rebound to a cooperative runtime where one thread runs at a time and every synchronisation call is a "
+             "scheduling point; recorded traces are checked inside Coq to be paths of the LTS with equal budget state, "
+             "outcome, callback order and files (exhaustive DFS on small configs, random/PCT beyond, real-thread soak).",
+        note=TRUST + "Modelled, not verified: the GIL, Lock/Condition/ThreadPoolExecutor contracts (they are the LTS rules), OS "
+             "semantics of several r+b writers on disjoint ranges, callback=None paths.",
+        technique="Coq proof over LTS model (invariants by induction over schedules); cooperative-scheduler trace acceptance in Coq",
+        design_ref="§6 C09, §10"),
+    "C10": dict(
+        level="proof",
+        text="Eleven theorems, none partial, for any file-system tree (directories, files, arbitrary symlinks incl. loops, hard "
+             "links), any cwd, base and location strings and any history: os.path.realpath (modelled after CPython) agrees "
+             "with kernel resolution whenever open() succeeds; the string test startswith(base+sep) equals component-wise "
+             "prefix (prefix-sibling case); if the three-layer check passes and the open succeeds, the file read lies inside "
+             "the resolved base, is regular and singly linked; every entry point opens at most once and only after a passing "
+             "check, nothing is read when the check raises; load() gives every tensor (graph and model-local functions) a "
+             "non-empty base that resolves to the model's directory for every spelling. Tie: generated worlds materialised "
+             "on disk and snapshotted into Coq terms; real ExternalTensor histories, os.path functions, stat/lstat and ir.load "
+             "spellings compared inside Coq; canary files make escapes visible to the oracle.",
+        note=TRUST + "Modelled, not verified: TOCTOU between check and open, non-POSIX normcase, the kernel's 40-link rule "
+             "(nesting bound), permissions, FIFOs/devices, non-ASCII names, mmap.",
+        technique="Coq proof over path/FS model (realpath vs resolution, prefix lemma, check-before-read); on-disk world correspondence",
+        design_ref="§6 C10, §10"),
     "C03": dict(
         level="translation_validation",
         text="Proved in Coq for all IR states: serialization is read-only except aligning an initializer tensor's name with its "
